@@ -78,7 +78,62 @@ class Ctx:
         self._harness_batches = getattr(self, "_harness_batches", 0) + 1
         r = pool.map(calls, timeout=timeout, order_seed=(self.seed * 7919 + self._harness_batches))
         log("   harness: %d calls in %.1fs" % (len(calls), t0.s()))
+        if not release:
+            rec = self.__dict__.setdefault("_recorded", {})
+            for c, x in zip(calls, r):
+                if c[0] not in ("mnemonic.hunt",) and x.tag in ("ok", "err") and sum(len(a) for a in c[1:]) < 300000:
+                    rec.setdefault(c[0], []).append((tuple(c), x))
         return r
+
+    def auto_history_check(self, per_op=240):
+        """Generic purity check, run after every generator: a sample of the library calls made so far (each already compared
+        with the model in its shuffled batch) is made again inside single processes in orders that put RELATED inputs next to
+        each other (sorted by first argument, by last argument, descending) — a result must not depend on the previous calls."""
+        rec = self.__dict__.get("_recorded", {})
+        sequences, ref = [], {}
+
+        def key(c, rev=False):
+            a = [x if isinstance(x, (bytes, bytearray)) else x.encode("utf8") for x in c[1:]]
+            return tuple(a[::-1] if rev else a)
+        for op, items in sorted(rec.items()):
+            uniq = list({c: x for c, x in items}.items())
+            sub = self.rng.sample(uniq, min(per_op, len(uniq)))
+            for c, x in sub:
+                ref[c] = x
+            cs = [c for c, _ in sub]
+            sequences.append(sorted(cs, key=key))
+            sequences.append(sorted(cs, key=lambda c: key(c, True), reverse=True))
+        if sequences:
+            self.history_independence(sequences, ref, clause="result-depends-on-earlier-calls")
+
+    def harness_sequences(self, sequences, release=False, timeout=120):
+        """sequences: list of lists of calls. Each sequence is executed IN ORDER by ONE process on ONE thread (state carried
+        from one call to the next — caches, reused buffers, memoised results — shows); different sequences run in parallel.
+        Returns a list of lists of results."""
+        key = "harness_release" if release else "harness"
+        pool = implrun.HarnessPool(self.bins[key])
+        t0 = Timer()
+        r = pool.map_sequences(sequences, timeout=timeout)
+        log("   harness: %d sequences (%d calls) in %.1fs" % (len(sequences), sum(len(q) for q in sequences), t0.s()))
+        return r
+
+    def history_independence(self, sequences, reference, clause="result-depends-on-earlier-calls", timeout=120):
+        """sequences: list of lists of calls, each executed in order in one process/thread; reference: dict call -> ImplOut of
+        the same call made elsewhere (in a shuffled batch, compared with the model there).  A library call is a function
+        of its arguments: the outcome and the result fields must not depend on what the process did before."""
+        res = self.harness_sequences(sequences, timeout=timeout)
+        for seq, rs in zip(sequences, res):
+            for k, (c, r) in enumerate(zip(seq, rs)):
+                want = reference.get(tuple(c))
+                self.count("call-sequences")
+                if want is None:
+                    continue
+                if r.tag != want.tag or list(r.fields) != list(want.fields):
+                    from gen.util import short
+                    self.violation(clause, dict(op=c[0], args=[short(a, 120) for a in c[1:]], position_in_sequence=k,
+                                                earlier_calls=[[q[0]] + [short(a, 60) for a in q[1:]] for q in seq[max(0, k - 6):k]]),
+                                   dict(outcome=want.tag, fields=[short(f) for f in want.fields]),
+                                   dict(outcome=r.tag, fields=[short(f) for f in r.fields], message=r.msg[:160]))
 
     def cli(self, runs, release=False, timeout=60, workers=None):
         key = "cli_release" if release else "cli"
@@ -189,6 +244,7 @@ def main():
             ctx.note("model does not build; correspondence skipped")
         else:
             mod.run(ctx)
+            ctx.auto_history_check()
     except Exception:
         tb = traceback.format_exc()
         log(tb)
